@@ -232,6 +232,13 @@ def part_decoders(ctx, r, F, simd_r):
         gate = binop("Ne", LEN, binop("Mul", ("cparam", size), C(2)))
         ok = len(rets) == 3
         desc = []
+        why = _array_decoder_semantics(F, b, size, arr, "body" in path and simd_r)
+        if why is None or not why.startswith("cannot evaluate"):
+            # decided by abstract evaluation (any spelling): input length {2N, 2N-1, 2N+1, 0, 4N} x decoder outcome
+            ctx.ob(r, (path.split("::<")[0].rsplit("::", 1)[-1] + "::from_str_bytes", "array-decoder"), why is None,
+                   "%s: %s; reference `len != 2*N -> length error; %s(whole input) -> Ok(decoded data) else InvalidCharacter`" % (path, why, "hex_simd::decode" if ("body" in path and simd_r) else arr),
+                   cfg=F.key, where=b.where(), detail={"engine": "evaluation"})
+            continue
         for p in rets:
             cs = [(n(d), (taken == "otherwise") if vals == [0] else bool(taken)) for (_, d, taken, vals) in p.conds]
             ret = n(p.ret)
@@ -260,6 +267,77 @@ def part_decoders(ctx, r, F, simd_r):
         ctx.ob(r, (path.split("::<")[0].rsplit("::", 1)[-1] + "::from_str_bytes", "array-decoder"), ok,
                "%s is not `len != 2*N -> length error; %s -> Ok(data) else InvalidCharacter` (%s)" % (path, "hex_simd::decode" if ("body" in path and simd_r) else arr, desc[:2]),
                cfg=F.key, where=b.where())
+
+
+def _array_decoder_semantics(F, b, size, arr, simd):
+    from .. import evalx
+    from .wmodel import View, _handlers
+    S = sym.Sym(b)
+    try:
+        paths = S.paths()
+    except sym.PathLimit:
+        return "cannot evaluate: too many paths"
+    if any(p.end == "loop" for p in paths):
+        return "cannot evaluate: loop"
+    evalx.set_target(F)
+    for N in ((1, 3) if size == "SIZE_CKSUM" else (12, 32, 64)):
+        need = 2 * N
+        for L in (need, need - 1, need + 1, 0, 2 * need):
+            for outcome in (True, False):
+                seen = []
+                calls = dict(_handlers(L))
+
+                def dec(args, seen=seen, outcome=outcome, L=L):
+                    srcs = [a for a in args if True]
+                    vals = []
+                    for a in args:
+                        try:
+                            vals.append(evalx.ev(S, F, a, asg))
+                        except evalx.Unknown:
+                            vals.append(None)
+                    views = [v for v in vals if isinstance(v, View)]
+                    muts = set()
+                    for a in args:
+                        for x in find_all(a, lambda y: y[0] == "ref" and len(y) == 3 and y[1] is True and isinstance(y[2], tuple) and y[2][0] == "lv"):
+                            muts.add(x[2][1])
+                    seen.append((tuple((v.lo, v.hi) for v in views), muts))
+                    if simd:
+                        return ("Ok", ("obj", "n")) if outcome else ("Err", ("obj", "hex error"))
+                    return int(outcome)
+                asg = {"symbolic": True, "params": {1: View("in", 0, L)}, "cparams": {size: N}, "calls": calls,
+                       "lazy_calls": {("hex_simd::decode" if simd else arr): dec}}
+                try:
+                    p = evalx.select(S, F, paths, asg)
+                except evalx.Panics as ex:
+                    return "an input of %d bytes (N=%d) panics (%s)" % (L, N, ex)
+                except evalx.Unknown as ex:
+                    return "cannot evaluate: %s" % ex
+                ret = n(p.ret)
+                kind = None
+                payload = p.ret
+                try:
+                    rv = evalx.ev(S, F, p.ret, asg)
+                except (evalx.Unknown, evalx.Panics):
+                    rv = None
+                if isinstance(rv, tuple) and rv[:1] == ("Ok",):
+                    kind, payload = "Ok", rv[1]
+                elif isinstance(rv, tuple) and rv[:1] == ("Err",) and isinstance(rv[1], tuple) and rv[1][:1] == ("adt",):
+                    kind = rv[1][1].rsplit("::", 1)[-1]
+                elif ret[0] == "agg" and ret[1].endswith("Result::Ok"):
+                    kind = "Ok"
+                elif ret[0] == "agg" and ret[1].endswith("Result::Err") and ret[2] and ret[2][0][0] == "agg":
+                    kind = ret[2][0][1].rsplit("::", 1)[-1]
+                want = "InvalidStringLength" if L != need else ("Ok" if outcome else "InvalidCharacter")
+                if kind != want:
+                    return "an input of %d bytes (N=%d), digits %s: returns %s; reference %s" % (L, N, "valid" if outcome else "invalid", kind or sym.fmt(ret)[:60], want)
+                if L == need:
+                    if not seen or any(s_[0] != ((0, L),) for s_ in seen):
+                        return "the decoder is applied to %s of the input; reference the whole input" % ([s_[0] for s_ in seen][:1],)
+                    if outcome:
+                        dsts = set().union(*[s_[1] for s_ in seen])
+                        if len(dsts) != 1 or not find_all(payload, lambda y: isinstance(y, tuple) and len(y) > 1 and y[0] in ("lv", "mutated", "local") and y[1] in dsts):
+                            return "the Ok value is not built from the buffer the decoder filled"
+    return None
 
 
 def entry_points(ctx, r, F):
